@@ -561,6 +561,32 @@ func c09ReserveBeforeDial(c *Ctx, pf *ssa.Function) string {
 	if bad := existsPath(pf, incs[0], isReturn, func(in ssa.Instruction) bool { return isCount(in, "Dec") || in == dials[0].Instr }); bad != nil {
 		return ": the reserved slot is kept on a refusal path"
 	}
+	// repair 160: the failed dial is given back right behind the dial - every path from newActiveClient to a return that
+	// does not take the "a client was created" edges (c == nil false, reason != "" false) passes a Dec. A failed Connect
+	// raises no close event, so nothing else would give the place back.
+	if bad := existsPathEdges(pf, dials[0].Instr, isReturn, func(in ssa.Instruction) bool { return isCount(in, "Dec") }, func(from, to *ssa.BasicBlock) bool {
+		ifi, ok := from.Instrs[len(from.Instrs)-1].(*ssa.If)
+		if !ok {
+			return true
+		}
+		bo, ok := ifi.Cond.(*ssa.BinOp)
+		if !ok {
+			return true
+		}
+		if k, ok := bo.Y.(*ssa.Const); ok {
+			if sv, ok := constString(k); ok && sv == "" && bo.Op == token.NEQ && to == from.Succs[1] {
+				// reason != "" is false: success, unless the client is nil - that test has to come first
+				for _, g := range guardsAt(from) {
+					if gb, isB := g.Cond.(*ssa.BinOp); isB && isNilConst(gb.Y) && ((gb.Op == token.EQL && !g.True) || (gb.Op == token.NEQ && g.True)) {
+						return false
+					}
+				}
+			}
+		}
+		return true
+	}); bad == nil {
+		return ""
+	}
 	ev := c.M("pkg/stream/xprotocol", "activeClientPingPong", "OnEvent")
 	if ev == nil {
 		return ": activeClientPingPong.OnEvent not found"
